@@ -50,6 +50,11 @@ pub fn begin_step() -> usize {
 	c
 }
 
+/// forget the harness's own allocations so far in this step (e.g. building the input)
+pub fn rebase() {
+	PEAK.store(CUR.load(Ordering::Relaxed), Ordering::Relaxed);
+}
+
 pub fn end_step(base: usize) -> usize {
 	STEP_STARTED_MS.store(0, Ordering::Relaxed);
 	PEAK.load(Ordering::Relaxed).saturating_sub(base)
